@@ -701,6 +701,38 @@ class Builtins:
             raise Unsupported("iteration over %r" % (it,))
         return k(s, st)
 
+    def unfold_gen(self, gen, st, k):
+        """(elt for <target> in <known tuple>) or (... in zip(<known tuple>, <known tuple>)), no conditions: evaluated item by
+        item in order (an exception of the k-th element stops the evaluation there); k(list of values, st).  None when the
+        generator is not of that shape."""
+        I, cx = self.interp, self.cx
+        if len(gen.node.generators) != 1 or gen.node.generators[0].ifs:
+            return None
+        g = gen.node.generators[0]
+        it = g.iter
+        is_zip = isinstance(it, ast.Call) and isinstance(it.func, ast.Name) and it.func.id == "zip" and not it.keywords and "zip" not in gen.env
+        srcs = list(it.args) if is_zip else [it]
+        if not all(isinstance(a, (ast.Name, ast.Attribute, ast.Tuple)) for a in srcs):
+            return None
+        # shape test without side effects: names / attribute chains only
+        vals = []
+
+        def ev_srcs(i, st1):
+            if i == len(srcs):
+                if not all(isinstance(v, VTuple) for v in vals):
+                    raise Unsupported("generator over %r" % (vals,))
+                n = min(len(v.items) for v in vals)
+                rows = [VTuple([v.items[j] for v in vals]) if is_zip else vals[0].items[j] for j in range(n)]
+                out = []
+
+                def go(j, st2):
+                    if j == len(rows):
+                        return k(list(out[:]), st2.with_env(st.env))
+                    return I.assign(g.target, rows[j], st2, lambda st3: I.ev(gen.node.elt, st3, lambda v, st4: (out.__setitem__(slice(j, None), [v]), go(j + 1, st4))[1]))
+                return go(0, st1.with_env(dict(gen.env)))
+            return I.ev(srcs[i], st1, lambda v, st2: (vals.__setitem__(slice(i, None), [v]), ev_srcs(i + 1, st2))[1])
+        return ev_srcs(0, st.with_env(dict(gen.env)))
+
     # ------------------------------------------------------------------ builtin functions
     def call_builtin(self, name, args, kwargs, st, k):
         cx = self.cx
@@ -970,6 +1002,10 @@ class Builtins:
             if isinstance(args[0], VRef) and st.heap[args[0].oid].meta.get("concrete_only"):
                 return self.new_list_from_values(list(st.heap[args[0].oid].meta["pyitems"]), st, k)
             return self.consume(args[0], st, lambda s, st2: self.new_list(s, st2, k))
+        if name == "tuple" and len(args) == 1 and isinstance(args[0], VGen):
+            r = self.unfold_gen(args[0], st, lambda items, st2: k(VTuple(items), st2))
+            if r is not None:
+                return r
         if name == "tuple" and len(args) == 1:
             return self.consume(args[0], st, lambda sq, st2: self.new_list(sq, st2, k, kind="tuple"))
         if name == "dict":
